@@ -32,6 +32,9 @@ def leaves(t):
 
 
 def run(db, chk) -> None:
+    from ..specs.discipline import check_stateless
+    check_stateless(db, chk, "C05.R-stateless", ['hta.analyzers.breakdown_analysis'])      # the result is a function of the arguments: no state kept between calls, caller's Trace untouched
+    chk.floor("C05.R-stateless", 4)
     check_merge(db, chk, "C05.R1-interval-union")
     chk.floor("C05.R1-interval-union", 8)
     m = db.mod(BA)
